@@ -86,6 +86,8 @@ func ScramSHA256PlusAuth(username, password string, tlsConnState *tls.Connection
 
 // Start initializes the SCRAM authentication process and returns the selected algorithm, nil data, and no error.
 func (a *scramAuth) Start(_ *ServerInfo) (string, []byte, error) {
+	// every exchange starts from a clean state, also when the Auth value is reused
+	a.reset()
 	return a.algorithm, nil, nil
 }
 
